@@ -8,6 +8,8 @@ import (
 
 	pb "github.com/ipfs/boxo/ipld/unixfs/pb"
 	"github.com/ipfs/go-cid"
+	"github.com/ipfs/go-unixfsnode/data/builder"
+	"github.com/ipld/go-ipld-prime/datamodel"
 	"pgregory.net/rapid"
 )
 
@@ -94,7 +96,7 @@ func TestC11_P_Sizes(t *testing.T) {
 	maxLen := scale(4096, 65536)
 	maxN := scale(300, 3000)
 	rapid.Check(t, func(t *rapid.T) {
-		kind := rapid.SampledFrom([]string{"file", "file", "sharded", "plain", "quick", "tree"}).Draw(t, "kind")
+		kind := rapid.SampledFrom([]string{"file", "file", "sharded", "plain", "quick", "tree", "symlink", "twice"}).Draw(t, "kind")
 		st := NewStore()
 		var root cid.Cid
 		var size uint64
@@ -122,8 +124,47 @@ func TestC11_P_Sizes(t *testing.T) {
 			if dedup {
 				ev.Count("dedup", 1)
 			}
+		case "symlink":
+			// target lengths around the one- / two-byte length-prefix boundaries of the encodings involved
+			n := rapid.OneOf(rapid.SampledFrom([]int{0, 1, 117, 118, 119, 120, 121, 122, 123, 124, 125, 126, 127, 128, 129, 130, 250, 255, 256, 16376, 16384}), rapid.IntRange(0, 400)).Draw(t, "targetLen")
+			target := string(lcgBytes(n, 7, 0))
+			var l datamodel.Link
+			must(t, "BuildUnixFSSymlink", func() { l, size, err = builder.BuildUnixFSSymlink(target, st.LinkSystem()) })
+			if err != nil {
+				t.Fatalf("C11 build symlink: %v", err)
+			}
+			root = cidOf(l)
+			nt = n >= 120
+			fp = fmt.Sprintf("symlink len=%d", n)
+			sample = map[string]any{"kind": kind, "target_len": n}
+		case "twice":
+			// the same content built twice into ONE store (every block of the second build already exists there)
+			w := genWidth(t)
+			ck := genChunker(t)
+			content := genContent(t, ck, w, 2048)
+			var r1 cid.Cid
+			var s1 uint64
+			must(t, "BuildUnixFSFile", func() { r1, s1, err = buildFile(st, content, ck.Name, w) })
+			if err != nil {
+				t.Fatalf("C11 build: %v", err)
+			}
+			must(t, "BuildUnixFSFile again", func() { root, size, err = buildFile(st, content, ck.Name, w) })
+			if err != nil {
+				t.Fatalf("C11 second build: %v", err)
+			}
+			if r1 != root || s1 != size {
+				t.Fatalf("C11: second build of the same file into the same store returned %s/%d, first %s/%d", root, size, r1, s1)
+			}
+			es := []entrySpec{{Name: "a", Cid: root, Tsize: size}, {Name: "b", Cid: root, Tsize: size}}
+			must(t, "directory of two copies", func() { root, size, err = buildDir(st, es) })
+			if err != nil {
+				t.Fatalf("C11 dir build: %v", err)
+			}
+			nt = st.Len() >= 3
+			fp = fmt.Sprintf("twice %s w=%d blocks=%s", ck.Class, w, bucket(st.Len()))
+			sample = map[string]any{"kind": kind, "len": len(content), "chunker": ck.Name, "w": w, "stored_blocks": st.Len()}
 		case "tree":
-			tr := genTree(t, 3, scale(8, 14))
+			tr := genBuilderTree(t, 3, scale(8, 14))
 			must(t, "tree build", func() { err = tr.build(st) })
 			if err != nil {
 				t.Fatalf("C11 build tree: %v", err)
